@@ -26,7 +26,9 @@ from lab.origin import Origin
 DNS_IP = "127.7.0.53"
 ACCEPT_LEVEL = ("close", "rst", "read_close", "read_rst", "stall")
 MENU = [("close",), ("rst",), ("read_close", 1), ("read_close", 20), ("read_close", 120), ("read_rst", 5), ("read_rst", 60), ("hdr_close",),
-        ("read_all_close",), ("read_all_rst",), ("read_all_stall",), ("stall",), ("partial_head_close",), ("partial_head_rst",), ("mid_body_rst",)]
+        ("read_all_close",), ("read_all_rst",), ("read_all_stall",), ("stall",), ("partial_head_close",), ("partial_head_rst",), ("mid_body_rst",),
+        # an interim response (which squid relays to the client), then the connection fails without a final response
+        ("interim_close",), ("interim_rst",)]
 NONIDEM = ["POST", "POST0", "POSTbig", "POSTchunked", "PATCH", "FROB", "FROB0"]
 CONTROL = ["GET", "DELETE", "PUT"]
 PLANS = [[m] for m in MENU] + [[m1, m2] for m1 in MENU for m2 in MENU]
@@ -209,6 +211,8 @@ class _Handler:
         if rec["slot"][0] == "hdr_close":
             rec["slot_used"] = True
             raise OSError("fault: close after reading the request head")
+        if rec["slot"][0] in ("interim_close", "interim_rst"):
+            return b"HTTP/1.1 103 Early Hints\r\nLink: </c07.css>; rel=preload\r\n\r\n"
         return None
 
     def __call__(self, req):
@@ -226,8 +230,11 @@ class _Handler:
         ok = Resp(200, [("Cache-Control", "no-store"), ("Connection", "close")], length=3000, close_after=True)
         if kind == "ok":
             return ok
-        if kind == "read_all_close":
+        if kind in ("read_all_close", "interim_close"):
             return None
+        if kind == "interim_rst":
+            ok.abort_at, ok.abort_kind = 0, "rst"
+            return ok
         if kind == "read_all_rst":
             ok.abort_at, ok.abort_kind = 0, "rst"
             return ok
